@@ -174,6 +174,8 @@ def c10_scope(tier):
               + A5 + 'Signal r = g(7, a);\n'))
     P.append(("fold-bundle-select", 'Signal a = ("signal-C", 5);\nSignal r = ({ ("signal-A", 5), ("signal-B", 6) }["signal-A"] * 2) + a;\n'
               'Bundle b = { ("signal-A", 7), ("signal-B", 9) };\nSignal q = b["signal-B"] * 3 + a;\n'))
+    P.append(("fold-passthrough", 'func f(Signal a, Signal v) { return (a > 3) : v; }\n' + H
+              + "Signal r = f(5, y) + 0;\nSignal q = f(2, y) + 0;\nSignal p = f(5, x * 2) + 0;\nSignal o = f(5, 7) + x;\n"))
     P.append(("const-reader-threshold", 'func g(Signal s, Signal t) { Signal w = s * s; return (t > s) : w; }\n' + A5 + 'Signal r = g(7, a);\n'))
     for k in ((2, 3, 4) if tier == "quick" else range(1, 9)):
         lines = ['Signal a = ("signal-A", 10);', "Signal x = a + 1;"]
